@@ -121,6 +121,70 @@ def peel_same_engine_markers(rel):
     return rel
 
 
+def roundtrip_temporaries(env, leaves, stats):
+    """There-and-back transfers of each leaf through every other engine, dropping the intermediate relation each time
+    (its address may be re-used by the next one): the round trip gives back that very leaf.  Also: asking an engine to
+    transfer a relation to itself *with a payload* must be refused or give a well-formed tree, never a self-transfer."""
+    from lsst.daf.relation import EngineError, LeafRelation, iteration
+
+    from vf.core.wellformed import check_tree
+
+    # tight loop first: nothing else is allocated between dropping one intermediate and creating the next
+    data = [(r, [n for n in lib_nodes(r) if isinstance(n, LeafRelation)][0]) for i, r in enumerate(env.leafrels) if leaves[i][4] == "data"]
+    # ... including several leaves of one engine (each round trip must give back *its* leaf)
+    if any(l[1] for l in leaves):
+        t = sorted({c for l in leaves for c in l[1]}, key=lambda c: c.qualified_name)[0]
+        for k in range(4):
+            extra = env.engines[1].make_leaf({t}, iteration.RowSequence([{t: k}]), name=f"roundtrip{k}")
+            data.append((extra, extra))
+    suspects = []
+    trips = [(leafrel, own, dest) for leafrel, own in data for dest in env.engines if dest is not leafrel.engine] * 3
+    for leafrel, own, dest in trips:
+        back = leafrel.transferred_to(dest).transferred_to(leafrel.engine)
+        if back is not leafrel:
+            suspects.append((leafrel, own, dest, back))
+    for leafrel, own, dest, back in suspects:
+        found = [n for n in lib_nodes(back) if isinstance(n, LeafRelation)]
+        if len(found) != 1 or found[0] is not own:
+            raise Violation(
+                "transfer-changed-content",
+                f"{own.name}.transferred_to({dest}).transferred_to({leafrel.engine}) returned {str(back)[:200]} (leaves {[n.name for n in found]}), not the leaf itself",
+            )
+    del suspects
+    for _ in range(1):
+        for i, leafrel in enumerate(env.leafrels):
+            if leaves[i][4] != "data":
+                continue
+            own = [n for n in lib_nodes(leafrel) if isinstance(n, LeafRelation)][0]
+            for dest in env.engines:
+                if dest is leafrel.engine:
+                    continue
+                try:
+                    tmp = leafrel.transferred_to(dest)
+                    back = tmp.transferred_to(leafrel.engine)
+                except Exception as e:
+                    raise Violation("call-raised", f"round trip of leaf {own.name}: {type(e).__name__}: {e}", sig=exc_sig(e))
+                found = [n for n in lib_nodes(back) if isinstance(n, LeafRelation)]
+                if len(found) != 1 or found[0] is not own or back.engine is not leafrel.engine:
+                    raise Violation(
+                        "transfer-changed-content",
+                        f"{own.name}.transferred_to({dest}).transferred_to({leafrel.engine}) returned {str(back)[:200]} (leaves {[n.name for n in found]}), not the leaf itself",
+                    )
+                # the same round trip through the low-level call with a payload
+                try:
+                    forced = leafrel.engine.transfer(tmp, payload=iteration.RowSequence([]))
+                except EngineError:
+                    forced = None
+                except Exception as e:
+                    raise Violation("call-raised", f"Engine.transfer with a payload on a round trip: {type(e).__name__}: {e}", sig=exc_sig(e))
+                if forced is not None:
+                    bad = check_tree(forced)
+                    if bad:
+                        raise Violation("transfer-ill-formed", f"[{bad[0]}] {bad[1]}; produced by Engine.transfer(round trip of {own.name}, payload=...)")
+                del tmp, back, forced
+                stats.c["roundtrip-temporaries"] += 1
+
+
 def run_case(case, stats):
     from lsst.daf.relation import ColumnError, EngineError, LeafRelation, Materialization
 
@@ -290,6 +354,7 @@ def run_case(case, stats):
                 return rels
 
             rels_first = run_program(env, leaves, "")
+            roundtrip_temporaries(env, leaves, stats)
             # the same program over twin leaves (same names / columns / engines, other rows, distinct objects): equal
             # relations are not interchangeable - a locked node found by name must be the operand's own object
             leaves2 = twin_leaves(leaves)
